@@ -13,6 +13,8 @@ def _sig(detail):
     if "sig" in d:
         s = d[d.index("sig") + 1]
         out = {"late": s[0], "float_gt": s[1]}
+        if len(s) > 2:
+            out["writer_expr"] = s[2]
     return out
 
 
